@@ -795,6 +795,12 @@ async fn fhaand(
             h0h1_for_j[ll].1 = (hash_kixj_delta.as_bytes()[31] & 1 != 0) ^ sj ^ yi[ll];
             vi[ll] ^= sj;
         }
+        #[cfg(feature = "__verif")]
+        crate::verif::probe(
+            "fhaand.s",
+            j,
+            &vi.iter().map(|b| *b as u8).collect::<Vec<u8>>(),
+        );
         send_to(channel, j, "haand", &h0h1_for_j)
             .await
             .map_err(Error::from)?;
